@@ -4454,3 +4454,72 @@ func c18R11(c *Ctx, r *Report) {
 	}
 	r.Floor(rule, n, 1, "16-byte scalar typedefs in the runtime headers")
 }
+
+// ---- C02.R12: a declaration without a value starts from the zero value ------------------------------------------
+
+func init() {
+	lateInits = append(lateInits, func() {
+		props["C02"].Quick = append(props["C02"].Quick, c02R12)
+		props["C01"].Quick = append(props["C01"].Quick, c02R12)
+		props["C17"].Quick = append(props["C17"].Quick, c02R12)
+		props["C02"].Explanation += " (R12) MIR generation stores a zero value into the slot of a declaration that has no initialiser (numbers, bool, str, optionals, maps and dynamic arrays): both back ends then start such a variable from the same value on every execution of the declaration, and the native one is not handed a slot that is read but never written."
+	})
+}
+
+func c02R12(c *Ctx, r *Report) {
+	const rule = "C02.R12"
+	r.Describe(rule, "mir/gen: the function that lowers a declaration item's value stores, after the branch for `item.Value != nil`, the result of a helper whose type switch has cases for PrimitiveType, OptionalType, MapType and ArrayType")
+	var fn *Fn
+	for _, name := range []string{"(*functionBuilder).lowerDeclItemValue", "(*functionBuilder).lowerDeclItem"} {
+		if f := c.LookupFn(pkgMIRGen, name); f != nil {
+			fn = f
+			break
+		}
+	}
+	store := c.LookupFn(pkgMIRGen, "(*functionBuilder).emitStore")
+	if !r.Anchor(rule, fn != nil && store != nil, "mir/gen lowerDeclItem(Value) / emitStore") {
+		return
+	}
+	info := fn.Info()
+	// the `if item.Value != nil { … }` statement
+	var valueIf *ast.IfStmt
+	for _, st := range fn.Decl.Body.List {
+		if ifs, ok := st.(*ast.IfStmt); ok {
+			if be, ok := isBinOp(ifs.Cond, token.NEQ); ok && strings.HasSuffix(exprStr(be.X), ".Value") && exprStr(be.Y) == "nil" {
+				valueIf = ifs
+			}
+		}
+	}
+	if !r.Anchor(rule, valueIf != nil, fn.Name()+": if item.Value != nil") {
+		return
+	}
+	ok := false
+	for _, st := range fn.Decl.Body.List {
+		if st.Pos() < valueIf.End() {
+			continue
+		}
+		for _, cl := range callsIn(st, false) {
+			f := callee(info, cl)
+			hf := c.FnOf(f)
+			if f == nil || hf == nil || hf.Decl == nil || hf.Decl.Body == nil || f.Pkg() != fn.Obj.Pkg() {
+				continue
+			}
+			cases := map[string]bool{}
+			ast.Inspect(hf.Decl.Body, func(x ast.Node) bool {
+				if cc, isCC := x.(*ast.CaseClause); isCC {
+					for _, t := range caseTypes(hf.Info(), cc) {
+						if nt := namedOf(t); nt != nil {
+							cases[nt.Obj().Name()] = true
+						}
+					}
+				}
+				return true
+			})
+			if cases["PrimitiveType"] && cases["OptionalType"] && cases["MapType"] && cases["ArrayType"] && nodeCalls(info, st, store.Obj) != nil {
+				ok = true
+			}
+		}
+	}
+	r.Check(ok, rule, fn.Name(), "a declaration without a value is given its zero value", c.pos(valueIf.End()),
+		"a declaration without an initialiser only reserves its slot: natively `while i < 3 { let x: i32; io::Println(x); x = i + 7; … }` prints 0 7 8 (the slot is shared by the iterations) and wasm prints 0 0 0; `let s: str; io::Println(s);` and `let m: map[i32]i32; m[1] = 2;` are refused by QBE (\"slot is read but never stored to\") while wasm runs them")
+}
